@@ -10,7 +10,7 @@ set_option linter.unusedVariables false
 namespace Program
 section
 variable {σ V : Type} [DecidableEq V]
-variable {S : List Ref} {V0 : List (Option (View V))} {ops : Ops σ V} {cfg : Cfg V}
+variable {I : σ → Heap (Cell V) → Prop} {S : List Ref} {V0 : List (Option (View V))} {ops : Ops σ V} {cfg : Cfg V}
 
 /-! ### no-op statements -/
 
@@ -97,11 +97,11 @@ theorem pristine_take {e : SEv} {c : Event (View V)} {ρ : List Ref} {base : Nat
     rw [List.getElem?_take, if_pos hj, ← m.pristine j j this]
   · rw [List.getElem?_take, if_neg hj, List.getElem?_eq_none (by omega)]
 
-theorem rep_spec (hR : Respects S ops) (hS : S.length = 5) (sc : Schedule) (hg : wfGen sc = true)
-    (he : wfEmpty sc = true) (hrp : wfRep sc = true) (n : Nat) {st : State σ V} (g : Good cfg.depth S V0 st)
+theorem rep_spec (hR : Respects I S ops) (hS : S.length = 5) (sc : Schedule) (hg : wfGen sc = true)
+    (he : wfEmpty sc = true) (hrp : wfRep sc = true) (n : Nat) {st : State σ V} (g : Good I cfg.depth S V0 st)
     (hn : st.ngen = some n) :
     ∃ (st' : State σ V) (es : List (Event (View V))),
-      execList (execE ops cfg sc) sc.evolveRep st = st' ∧ Good cfg.depth S V0 st' ∧
+      execList (execE ops cfg sc) sc.evolveRep st = st' ∧ Good I cfg.depth S V0 st' ∧
       st'.trace = st.trace ++ es ∧ st'.rep = st.rep + 1 ∧ st'.ngen = some n ∧
       es.length = repLen cfg.loginit n ∧
       (∀ e ∈ es, e.rep = st.rep + 1 ∧ (cfg.loginit = false → e.kind ≠ .log .initialize) ∧ e.kind ≠ .init) ∧
@@ -247,11 +247,11 @@ theorem repsOf_succ (rep0 : Int) (li : Bool) (ng n : Nat) :
     simp only [Int.ofNat_eq_natCast, Nat.cast_succ]
     ring
 
-theorem reps_spec (hR : Respects S ops) (hS : S.length = 5) (sc : Schedule) (hg : wfGen sc = true)
+theorem reps_spec (hR : Respects I S ops) (hS : S.length = 5) (sc : Schedule) (hg : wfGen sc = true)
     (he : wfEmpty sc = true) (hrp : wfRep sc = true) (ngen : Nat) (n : Nat) :
-    ∀ {st : State σ V}, Good cfg.depth S V0 st → st.ngen = some ngen →
+    ∀ {st : State σ V}, Good I cfg.depth S V0 st → st.ngen = some ngen →
     ∃ (st' : State σ V) (es : List (Event (View V))),
-      iter (execList (execE ops cfg sc) sc.evolveRep) n st = st' ∧ Good cfg.depth S V0 st' ∧
+      iter (execList (execE ops cfg sc) sc.evolveRep) n st = st' ∧ Good I cfg.depth S V0 st' ∧
       st'.trace = st.trace ++ es ∧ st'.rep = st.rep + n ∧ st'.ngen = some ngen ∧
       es.map (fun e => e.rep) = repsOf st.rep cfg.loginit ngen n ∧
       (∀ e ∈ es, (cfg.loginit = false → e.kind ≠ .log .initialize) ∧ e.kind ≠ .init) ∧
@@ -311,12 +311,17 @@ def startHeap (ops : Ops σ V) (st : State σ V) : Heap (Cell V) :=
 def startN0 (ops : Ops σ V) (st : State σ V) : Nat :=
   if st.start.all Option.isSome then st.n0 else (ops.init st.ost st.heap).2.1.length
 
+/-- the operators' internal state once the programme is initialised -/
+def startOst (ops : Ops σ V) (st : State σ V) : σ :=
+  if st.start.all Option.isSome then st.ost else (ops.init st.ost st.heap).1
+
 /-- assumptions on the state in which `evolve` is called: five start slots; once the programme is
     initialised (by the caller or by the initialisation operator, which does not shrink the heap)
     there are five start containers whose object graphs exist, lie in the part of the heap recorded
     as existing at initialisation and are not referenced from elsewhere; the heap is well formed;
-    working variables left over from earlier calls refer to existing cells outside those graphs -/
-structure Ready (ops : Ops σ V) (st : State σ V) : Prop where
+    working variables left over from earlier calls refer to existing cells outside those graphs; the
+    operators' internal state satisfies the invariant `I` (e.g. "keeps no reference into those graphs") -/
+structure Ready (I : σ → Heap (Cell V) → Prop) (ops : Ops σ V) (st : State σ V) : Prop where
   nbad : st.bad = false
   startLen : st.start.length = 5
   refs5 : (startRefs ops st).length = 5
@@ -326,6 +331,7 @@ structure Ready (ops : Ops σ V) (st : State σ V) : Prop where
   region : ∀ x, InReg (startHeap ops st) (startRefs ops st) x → x < startN0 ops st
   iso : Iso (startHeap ops st) (startRefs ops st)
   regsOK : ∀ r a, st.regs r = some a → a < st.heap.length ∧ ¬ InReg (startHeap ops st) (startRefs ops st) a
+  inv : I (startOst ops st) (startHeap ops st)
 
 theorem all_isSome_eq (l : List (Option Ref)) (h : l.all Option.isSome = true) :
     l = (l.filterMap id).map some := by
@@ -352,10 +358,10 @@ def afterInit (ops : Ops σ V) (cfg : Cfg V) (st : State σ V) : State σ V :=
             trace := st.trace ++ [initEvent ops cfg st] }
 
 /-- `if not self.is_initialized(): self.initialize()` -/
-theorem init_spec {st : State σ V} (hr : Ready ops st) :
+theorem init_spec {st : State σ V} (hr : Ready I ops st) :
     ∃ (st' : State σ V) (es : List (Event (View V))) (V0 : List (Option (View V))),
       execS ops cfg .initIfNeeded st = st' ∧
-      Good cfg.depth (startRefs ops st) V0 st' ∧ st'.trace = st.trace ++ es ∧ st'.rep = st.rep ∧ st'.ngen = st.ngen ∧
+      Good I cfg.depth (startRefs ops st) V0 st' ∧ st'.trace = st.trace ++ es ∧ st'.rep = st.rep ∧ st'.ngen = st.ngen ∧
       st'.regs = st.regs ∧ (startRefs ops st).length = 5 ∧ V0.length = 5 ∧ V0.all Option.isSome = true ∧
       ((st.start.all Option.isSome = true ∧ es = [] ∧ V0 = startVals cfg.depth st.heap st.start) ∨
        (st.start.all Option.isSome = false ∧ es = [initEvent ops cfg st] ∧
@@ -370,8 +376,9 @@ theorem init_spec {st : State σ V} (hr : Ready ops st) :
     have hst := all_isSome_eq _ hall
     refine ⟨st, [], vals cfg.depth st.heap (startRefs ops st), ?_, ?_, by simp, rfl, rfl, rfl, hr.refs5, ?_, ?_, ?_⟩
     · simp [execS, hr.nbad, hall]
-    · refine ⟨hr.nbad, by rw [hS]; exact hst, by rw [← hH]; exact hr.wf, by rw [← hH, ← hN]; exact hr.n0le,
-        ?_, by rw [← hH]; exact hr.iso, rfl, ?_⟩
+    · have hO : startOst ops st = st.ost := by simp [startOst, hall]
+      refine ⟨hr.nbad, by rw [hS]; exact hst, by rw [← hH]; exact hr.wf, by rw [← hH, ← hN]; exact hr.n0le,
+        ?_, by rw [← hH]; exact hr.iso, rfl, ?_, by rw [← hH, ← hO]; exact hr.inv⟩
       · intro x hx; rw [← hN]; exact hr.region x (by rw [hH]; exact hx)
       · intro r a h; have := hr.regsOK r a h; rw [hH] at this; exact this
     · rw [vals_length, hr.refs5]
@@ -395,7 +402,11 @@ theorem init_spec {st : State σ V} (hr : Ready ops st) :
       have hiso : Iso (afterInit ops cfg st).heap (startRefs ops st) := by
         show Iso (ops.init st.ost st.heap).2.1 (startRefs ops st)
         rw [← hH]; exact hr.iso
-      refine ⟨hr.nbad, by rw [hS]; rfl, hwf, le_refl _, ?_, hiso, by rw [hS]; rfl, ?_⟩
+      have hO : startOst ops st = (ops.init st.ost st.heap).1 := by simp [startOst, hall]
+      have hinv : I (afterInit ops cfg st).ost (afterInit ops cfg st).heap := by
+        show I (ops.init st.ost st.heap).1 (ops.init st.ost st.heap).2.1
+        rw [← hH, ← hO]; exact hr.inv
+      refine ⟨hr.nbad, by rw [hS]; rfl, hwf, le_refl _, ?_, hiso, by rw [hS]; rfl, ?_, hinv⟩
       · intro x hx
         have := hr.region x (by rw [hH]; exact hx)
         rw [hN] at this; exact this
@@ -410,23 +421,23 @@ theorem init_spec {st : State σ V} (hr : Ready ops st) :
     · right
       exact ⟨rfl, rfl, rfl⟩
 
-theorem Ready.with_ngen {st : State σ V} (hr : Ready ops st) (x : Option Nat) :
-    Ready ops { st with ngen := x } :=
-  ⟨hr.nbad, hr.startLen, hr.refs5, hr.grow, hr.wf, hr.n0le, hr.region, hr.iso, hr.regsOK⟩
+theorem Ready.with_ngen {st : State σ V} (hr : Ready I ops st) (x : Option Nat) :
+    Ready I ops { st with ngen := x } :=
+  ⟨hr.nbad, hr.startLen, hr.refs5, hr.grow, hr.wf, hr.n0le, hr.region, hr.iso, hr.regsOK, hr.inv⟩
 
 theorem execS_ngenDefault {st : State σ V} (hb : st.bad = false) :
     execS ops cfg .ngenDefault st = { st with ngen := some (st.ngen.getD cfg.tmax) } := by
   simp [execS, hb]
 
-theorem Good.with_ngen {st : State σ V} {d : Nat} (g : Good d S V0 st) (x : Option Nat) :
-    Good d S V0 { st with ngen := x } :=
-  ⟨g.nbad, g.start, g.wf, g.n0le, g.region, g.iso, g.svals, g.regs⟩
+theorem Good.with_ngen {st : State σ V} {d : Nat} (g : Good I d S V0 st) (x : Option Nat) :
+    Good I d S V0 { st with ngen := x } :=
+  ⟨g.nbad, g.start, g.wf, g.n0le, g.region, g.iso, g.svals, g.regs, g.inv⟩
 
 /-- the statements of `evolve` before the replicate loop -/
-theorem pre_spec (sc : Schedule) (hp : wfPre sc = true) {st : State σ V} (hr : Ready ops st) :
+theorem pre_spec (sc : Schedule) (hp : wfPre sc = true) {st : State σ V} (hr : Ready I ops st) :
     ∃ (st' : State σ V) (es : List (Event (View V))) (V0 : List (Option (View V))),
       execList (execE ops cfg sc) sc.evolvePre { st with ngen := cfg.ngen } = st' ∧
-      Good cfg.depth (startRefs ops st) V0 st' ∧ st'.trace = st.trace ++ es ∧ st'.rep = st.rep ∧
+      Good I cfg.depth (startRefs ops st) V0 st' ∧ st'.trace = st.trace ++ es ∧ st'.rep = st.rep ∧
       st'.ngen = effNgen sc cfg ∧ st'.regs = st.regs ∧
       (startRefs ops st).length = 5 ∧ V0.length = 5 ∧ V0.all Option.isSome = true ∧
       ((st.start.all Option.isSome = true ∧ es = [] ∧ V0 = startVals cfg.depth st.heap st.start) ∨
@@ -446,7 +457,7 @@ theorem pre_spec (sc : Schedule) (hp : wfPre sc = true) {st : State σ V} (hr : 
   · -- [ngenDefault, initIfNeeded]
     have hN : effNgen sc cfg = some (cfg.ngen.getD cfg.tmax) := by
       simp [effNgen, HandlesNone, h, isNgenDefault]
-    have hr1 : Ready ops { st with ngen := some (cfg.ngen.getD cfg.tmax) } := hr.with_ngen _
+    have hr1 : Ready I ops { st with ngen := some (cfg.ngen.getD cfg.tmax) } := hr.with_ngen _
     obtain ⟨s1, es, V0, q, g, tr, rp, ng, rg, r⟩ := init_spec (cfg := cfg) hr1
     rw [h, hN]
     refine ⟨s1, es, V0, ?_, g, tr, rp, ng, rg, r⟩
@@ -511,10 +522,10 @@ theorem specTrace_init (R : Item (View V) → Item (View V) → Bool) (nrep ngen
 
 /-- everything that is proved about one `evolve` call of a well-formed schedule; `n` is the
     generation count the call works with -/
-theorem evolve_wf (sc : Schedule) (hwf : WellFormed sc = true) {st : State σ V} (hr : Ready ops st)
-    (hR : Respects (startRefs ops st) ops) (n : Nat) (hn : effNgen sc cfg = some n) :
+theorem evolve_wf (sc : Schedule) (hwf : WellFormed sc = true) {st : State σ V} (hr : Ready I ops st)
+    (hR : Respects I (startRefs ops st) ops) (n : Nat) (hn : effNgen sc cfg = some n) :
     ∃ (st' : State σ V) (es0 es1 : List (Event (View V))) (V0 : List (Option (View V))),
-      evolve ops cfg sc st = st' ∧ Good cfg.depth (startRefs ops st) V0 st' ∧
+      evolve ops cfg sc st = st' ∧ Good I cfg.depth (startRefs ops st) V0 st' ∧
       st'.trace = st.trace ++ (es0 ++ es1) ∧ st'.rep = st.rep + cfg.nrep ∧
       (st.start.all Option.isSome = true → es0 = [] ∧ V0 = startVals cfg.depth st.heap st.start) ∧
       (st.start.all Option.isSome = false →
@@ -524,7 +535,7 @@ theorem evolve_wf (sc : Schedule) (hwf : WellFormed sc = true) {st : State σ V}
         checkReps R V0 cfg.loginit n cfg.nrep es1 = some []) ∧
       (∀ (R : Item (View V) → Item (View V) → Bool), ReflOnRefs R →
         specTrace R cfg.nrep n cfg.loginit (startVals cfg.depth st.heap st.start) (es0 ++ es1) = true) ∧
-      (∀ e ∈ es1, e.kind ≠ .init) ∧
+      (∀ e ∈ es1, (cfg.loginit = false → e.kind ≠ .log .initialize) ∧ e.kind ≠ .init) ∧
       (0 < cfg.nrep → ∃ cur : List Ref, five.map st'.regs = cur.map some ∧ cur.length = 5) ∧
       (cfg.nrep = 0 → st'.regs = st.regs) ∧
       (startRefs ops st).length = 5 := by
@@ -541,7 +552,7 @@ theorem evolve_wf (sc : Schedule) (hwf : WellFormed sc = true) {st : State σ V}
   have hpost : strip sc.evolvePost = [] := by
     simp only [wfEmpty, Bool.and_eq_true, beq_iff_eq] at hempty
     exact hempty.1.1
-  refine ⟨s2, es0, es1, V0, ?_, g2, ?_, ?_, ?_, ?_, ?_, chk, ?_, fun e he => (all2 e he).2, held2, ?_, hS⟩
+  refine ⟨s2, es0, es1, V0, ?_, g2, ?_, ?_, ?_, ?_, ?_, chk, ?_, all2, held2, ?_, hS⟩
   · show execList (execE ops cfg sc) sc.evolvePost
         (iter (execList (execE ops cfg sc) sc.evolveRep) cfg.nrep
           (execList (execE ops cfg sc) sc.evolvePre { st with ngen := cfg.ngen })) = s2
